@@ -77,7 +77,8 @@ Lemma holds_upd_other s t x t' c (s' : state) :
   threads s' = upd (threads s) t x -> t' <> t -> holds s' t' c -> holds s t' c.
 Proof. intros He Hne (tw & wr & rd & H). rewrite He, upd_neq in H by exact Hne. exists tw, wr, rd. exact H. Qed.
 
-Ltac upd_cases x k := unfold upd; destruct (Nat.eqb_spec x k).
+Ltac upd_hyp Hh x k := destruct (Nat.eq_dec x k) as [->|n]; [rewrite upd_eq in Hh | rewrite upd_neq in Hh by exact n].
+Ltac upd_goal x k := destruct (Nat.eq_dec x k) as [->|n]; [rewrite ?upd_eq | rewrite ?upd_neq by exact n].
 
 Lemma pipe_write k wr rd r :
   pipe_ok k wr rd -> pipe_ok (mkConn (c2s k ++ [r]) (s2c k) (srv k) (sclosed k) (cclosed k)) (wr ++ [r]) rd.
@@ -127,36 +128,36 @@ Proof.
       constructor; simpl.
       * intros c' Hc'. apply (inv_idle s I). rewrite Hi. right. exact Hc'.
       * assumption.
-      * intros t' c' tw wr rd Hh. revert Hh. upd_cases t' t; intros Hh.
+      * intros t' c' tw wr rd Hh. upd_hyp Hh t' t.
         -- inversion Hh; subst. repeat split; auto. apply Hcl. apply pipe_clean. exact Hcl.
         -- destruct (inv_hold s I _ _ _ _ _ Hh) as (A & B & C & D). repeat split; auto.
            intros Hx. apply B. rewrite Hi. right. exact Hx.
-      * intros t1 t2 c0 H1 H2.
+      * intros t1 t2 c0 Hh1 Hh2.
         destruct (Nat.eq_dec t1 t) as [->|N1]; destruct (Nat.eq_dec t2 t) as [->|N2]; auto.
-        -- exfalso. destruct H1 as (? & ? & ? & H1). simpl in H1. rewrite upd_eq in H1. inversion H1; subst.
-           destruct H2 as (? & ? & ? & H2). simpl in H2. rewrite upd_neq in H2 by exact N2.
-           destruct (inv_hold s I _ _ _ _ _ H2) as (_ & B & _). apply B. exact Hin.
-        -- exfalso. destruct H2 as (? & ? & ? & H2). simpl in H2. rewrite upd_eq in H2. inversion H2; subst.
-           destruct H1 as (? & ? & ? & H1). simpl in H1. rewrite upd_neq in H1 by exact N1.
-           destruct (inv_hold s I _ _ _ _ _ H1) as (_ & B & _). apply B. exact Hin.
+        -- exfalso. destruct Hh1 as (? & ? & ? & Hh1). simpl in Hh1. rewrite upd_eq in Hh1. inversion Hh1; subst.
+           destruct Hh2 as (? & ? & ? & Hh2). simpl in Hh2. rewrite upd_neq in Hh2 by exact N2.
+           destruct (inv_hold s I _ _ _ _ _ Hh2) as (_ & B & _). apply B. exact Hin.
+        -- exfalso. destruct Hh2 as (? & ? & ? & Hh2). simpl in Hh2. rewrite upd_eq in Hh2. inversion Hh2; subst.
+           destruct Hh1 as (? & ? & ? & Hh1). simpl in Hh1. rewrite upd_neq in Hh1 by exact N1.
+           destruct (inv_hold s I _ _ _ _ _ Hh1) as (_ & B & _). apply B. exact Hin.
         -- apply (inv_excl s I t1 t2 c0); eapply holds_upd_other; eauto; reflexivity.
       * apply (inv_done s I).
     + destruct (idle s) as [|c rest] eqn:Hi; [|discriminate]. inversion H; subst; clear H.
       constructor; simpl.
       * intros c' [].
       * constructor.
-      * intros t' c' tw wr rd Hh. revert Hh. upd_cases t' t; intros Hh.
+      * intros t' c' tw wr rd Hh. upd_hyp Hh t' t.
         -- inversion Hh; subst. rewrite upd_eq. repeat split; auto. apply pipe_fresh.
         -- destruct (inv_hold s I _ _ _ _ _ Hh) as (A & B & C & D).
            rewrite upd_neq by lia. repeat split; auto.
-      * intros t1 t2 c0 H1 H2.
+      * intros t1 t2 c0 Hh1 Hh2.
         destruct (Nat.eq_dec t1 t) as [->|N1]; destruct (Nat.eq_dec t2 t) as [->|N2]; auto.
-        -- exfalso. destruct H1 as (? & ? & ? & H1). simpl in H1. rewrite upd_eq in H1. inversion H1; subst.
-           destruct H2 as (? & ? & ? & H2). simpl in H2. rewrite upd_neq in H2 by exact N2.
-           destruct (inv_hold s I _ _ _ _ _ H2) as (A & _). lia.
-        -- exfalso. destruct H2 as (? & ? & ? & H2). simpl in H2. rewrite upd_eq in H2. inversion H2; subst.
-           destruct H1 as (? & ? & ? & H1). simpl in H1. rewrite upd_neq in H1 by exact N1.
-           destruct (inv_hold s I _ _ _ _ _ H1) as (A & _). lia.
+        -- exfalso. destruct Hh1 as (? & ? & ? & Hh1). simpl in Hh1. rewrite upd_eq in Hh1. inversion Hh1; subst.
+           destruct Hh2 as (? & ? & ? & Hh2). simpl in Hh2. rewrite upd_neq in Hh2 by exact N2.
+           destruct (inv_hold s I _ _ _ _ _ Hh2) as (A & _). lia.
+        -- exfalso. destruct Hh2 as (? & ? & ? & Hh2). simpl in Hh2. rewrite upd_eq in Hh2. inversion Hh2; subst.
+           destruct Hh1 as (? & ? & ? & Hh1). simpl in Hh1. rewrite upd_neq in Hh1 by exact N1.
+           destruct (inv_hold s I _ _ _ _ _ Hh1) as (A & _). lia.
         -- apply (inv_excl s I t1 t2 c0); eapply holds_upd_other; eauto; reflexivity.
       * apply (inv_done s I).
   - (* LEvict *)
@@ -179,17 +180,17 @@ Proof.
     + intros c' Hc'. assert (c' <> c) by (intros ->; contradiction).
       rewrite upd_neq by assumption. apply (inv_idle s I). exact Hc'.
     + apply (inv_nodup s I).
-    + intros t' c' tw' wr' rd' Hh. revert Hh. upd_cases t' t; intros Hh.
+    + intros t' c' tw' wr' rd' Hh. upd_hyp Hh t' t.
       * inversion Hh; subst. rewrite upd_eq. simpl. repeat split; auto. apply pipe_write. exact D.
       * destruct (inv_hold s I _ _ _ _ _ Hh) as (A' & B' & C' & D').
         assert (c' <> c).
         { intros ->. apply n. apply (inv_excl s I t' t c); [exists tw', wr', rd'; exact Hh | exists (r :: tw), wr, rd; exact Ht]. }
         rewrite upd_neq by assumption. repeat split; auto.
-    + intros t1 t2 c0 H1 H2. apply (inv_excl s I t1 t2 c0).
+    + intros t1 t2 c0 Hh1 Hh2. apply (inv_excl s I t1 t2 c0).
       * destruct (Nat.eq_dec t1 t) as [->|N1]; [|eapply holds_upd_other; eauto; reflexivity].
-        destruct H1 as (? & ? & ? & H1). simpl in H1. rewrite upd_eq in H1. inversion H1; subst. eexists; eexists; eexists; exact Ht.
+        destruct Hh1 as (? & ? & ? & Hh1). simpl in Hh1. rewrite upd_eq in Hh1. inversion Hh1; subst. eexists; eexists; eexists; exact Ht.
       * destruct (Nat.eq_dec t2 t) as [->|N2]; [|eapply holds_upd_other; eauto; reflexivity].
-        destruct H2 as (? & ? & ? & H2). simpl in H2. rewrite upd_eq in H2. inversion H2; subst. eexists; eexists; eexists; exact Ht.
+        destruct Hh2 as (? & ? & ? & Hh2). simpl in Hh2. rewrite upd_eq in Hh2. inversion Hh2; subst. eexists; eexists; eexists; exact Ht.
     + apply (inv_done s I).
   - (* LRead *)
     destruct (threads s t) as [|c tw wr rd] eqn:Ht; [discriminate|]. destruct tw; [|discriminate].
@@ -200,17 +201,17 @@ Proof.
     + intros c' Hc'. assert (c' <> c) by (intros ->; contradiction).
       rewrite upd_neq by assumption. apply (inv_idle s I). exact Hc'.
     + apply (inv_nodup s I).
-    + intros t' c' tw' wr' rd' Hh. revert Hh. upd_cases t' t; intros Hh.
+    + intros t' c' tw' wr' rd' Hh. upd_hyp Hh t' t.
       * inversion Hh; subst. rewrite upd_eq. simpl. repeat split; auto. apply pipe_read; assumption.
       * destruct (inv_hold s I _ _ _ _ _ Hh) as (A' & B' & C' & D').
         assert (c' <> c).
         { intros ->. apply n. apply (inv_excl s I t' t c); [exists tw', wr', rd'; exact Hh | exists [], wr, rd; exact Ht]. }
         rewrite upd_neq by assumption. repeat split; auto.
-    + intros t1 t2 c0 H1 H2. apply (inv_excl s I t1 t2 c0).
+    + intros t1 t2 c0 Hh1 Hh2. apply (inv_excl s I t1 t2 c0).
       * destruct (Nat.eq_dec t1 t) as [->|N1]; [|eapply holds_upd_other; eauto; reflexivity].
-        destruct H1 as (? & ? & ? & H1). simpl in H1. rewrite upd_eq in H1. inversion H1; subst. eexists; eexists; eexists; exact Ht.
+        destruct Hh1 as (? & ? & ? & Hh1). simpl in Hh1. rewrite upd_eq in Hh1. inversion Hh1; subst. eexists; eexists; eexists; exact Ht.
       * destruct (Nat.eq_dec t2 t) as [->|N2]; [|eapply holds_upd_other; eauto; reflexivity].
-        destruct H2 as (? & ? & ? & H2). simpl in H2. rewrite upd_eq in H2. inversion H2; subst. eexists; eexists; eexists; exact Ht.
+        destruct Hh2 as (? & ? & ? & Hh2). simpl in Hh2. rewrite upd_eq in Hh2. inversion Hh2; subst. eexists; eexists; eexists; exact Ht.
     + apply (inv_done s I).
   - (* LPut *)
     destruct (threads s t) as [|c tw wr rd] eqn:Ht; [discriminate|]. destruct tw; [|discriminate].
@@ -224,12 +225,12 @@ Proof.
     + constructor; simpl.
       * intros c' [<-|Hc']; [split; [exact A | repeat split; assumption] | apply (inv_idle s I); exact Hc'].
       * constructor; [exact B | apply (inv_nodup s I)].
-      * intros t' c' tw' wr' rd' Hh. revert Hh. upd_cases t' t; intros Hh; [discriminate|].
+      * intros t' c' tw' wr' rd' Hh. upd_hyp Hh t' t; [discriminate|].
         destruct (inv_hold s I _ _ _ _ _ Hh) as (A' & B' & C' & D'). repeat split; auto.
         intros [<-|Hx]; [eapply Hother; eauto | contradiction].
-      * intros t1 t2 c0 H1 H2.
-        assert (N1 : t1 <> t) by (intros ->; destruct H1 as (? & ? & ? & H1); simpl in H1; rewrite upd_eq in H1; discriminate).
-        assert (N2 : t2 <> t) by (intros ->; destruct H2 as (? & ? & ? & H2); simpl in H2; rewrite upd_eq in H2; discriminate).
+      * intros t1 t2 c0 Hh1 Hh2.
+        assert (N1 : t1 <> t) by (intros ->; destruct Hh1 as (? & ? & ? & Hh1); simpl in Hh1; rewrite upd_eq in Hh1; discriminate).
+        assert (N2 : t2 <> t) by (intros ->; destruct Hh2 as (? & ? & ? & Hh2); simpl in Hh2; rewrite upd_eq in Hh2; discriminate).
         apply (inv_excl s I t1 t2 c0); eapply holds_upd_other; eauto; reflexivity.
       * intros t' reqs res Hin. apply in_app_or in Hin. destruct Hin as [Hin|[Hin|[]]]; [eapply (inv_done s I); eauto|].
         inversion Hin; subst. reflexivity.
@@ -237,12 +238,12 @@ Proof.
       * intros c' Hc'. assert (c' <> c) by (intros ->; contradiction).
         rewrite upd_neq by assumption. apply (inv_idle s I). exact Hc'.
       * apply (inv_nodup s I).
-      * intros t' c' tw' wr' rd' Hh. revert Hh. upd_cases t' t; intros Hh; [discriminate|].
+      * intros t' c' tw' wr' rd' Hh. upd_hyp Hh t' t; [discriminate|].
         destruct (inv_hold s I _ _ _ _ _ Hh) as (A' & B' & C' & D').
         rewrite upd_neq by (eapply Hother; eauto). repeat split; auto.
-      * intros t1 t2 c0 H1 H2.
-        assert (N1 : t1 <> t) by (intros ->; destruct H1 as (? & ? & ? & H1); simpl in H1; rewrite upd_eq in H1; discriminate).
-        assert (N2 : t2 <> t) by (intros ->; destruct H2 as (? & ? & ? & H2); simpl in H2; rewrite upd_eq in H2; discriminate).
+      * intros t1 t2 c0 Hh1 Hh2.
+        assert (N1 : t1 <> t) by (intros ->; destruct Hh1 as (? & ? & ? & Hh1); simpl in Hh1; rewrite upd_eq in Hh1; discriminate).
+        assert (N2 : t2 <> t) by (intros ->; destruct Hh2 as (? & ? & ? & Hh2); simpl in Hh2; rewrite upd_eq in Hh2; discriminate).
         apply (inv_excl s I t1 t2 c0); eapply holds_upd_other; eauto; reflexivity.
       * intros t' reqs res Hin. apply in_app_or in Hin. destruct Hin as [Hin|[Hin|[]]]; [eapply (inv_done s I); eauto|].
         inversion Hin; subst. reflexivity.
@@ -256,12 +257,12 @@ Proof.
     + intros c' Hc'. assert (c' <> c) by (intros ->; contradiction).
       rewrite upd_neq by assumption. apply (inv_idle s I). exact Hc'.
     + apply (inv_nodup s I).
-    + intros t' c' tw' wr' rd' Hh. revert Hh. upd_cases t' t; intros Hh; [discriminate|].
+    + intros t' c' tw' wr' rd' Hh. upd_hyp Hh t' t; [discriminate|].
       destruct (inv_hold s I _ _ _ _ _ Hh) as (A' & B' & C' & D').
       rewrite upd_neq by (eapply Hother; eauto). repeat split; auto.
-    + intros t1 t2 c0 H1 H2.
-      assert (N1 : t1 <> t) by (intros ->; destruct H1 as (? & ? & ? & H1); simpl in H1; rewrite upd_eq in H1; discriminate).
-      assert (N2 : t2 <> t) by (intros ->; destruct H2 as (? & ? & ? & H2); simpl in H2; rewrite upd_eq in H2; discriminate).
+    + intros t1 t2 c0 Hh1 Hh2.
+      assert (N1 : t1 <> t) by (intros ->; destruct Hh1 as (? & ? & ? & Hh1); simpl in Hh1; rewrite upd_eq in Hh1; discriminate).
+      assert (N2 : t2 <> t) by (intros ->; destruct Hh2 as (? & ? & ? & Hh2); simpl in Hh2; rewrite upd_eq in Hh2; discriminate).
       apply (inv_excl s I t1 t2 c0); eapply holds_upd_other; eauto; reflexivity.
     + intros t' reqs res Hin. apply in_app_or in Hin. destruct Hin as [Hin|[Hin|[]]]; [eapply (inv_done s I); eauto|].
       discriminate.
@@ -270,10 +271,10 @@ Proof.
     destruct (srv (conns s c)) eqn:Hv; [discriminate|]. destruct (c2s (conns s c)) as [|r rest0] eqn:Hc2; [discriminate|].
     inversion H; subst; clear H. unfold set_conn. constructor; simpl.
     + intros c' Hc'. destruct (inv_idle s I c' Hc') as [L (K1 & K2 & K3 & K4)].
-      upd_cases c' c; [subst; rewrite Hc2 in K1; discriminate | split; [exact L | repeat split; assumption]].
+      upd_goal c' c; [rewrite Hc2 in K1; discriminate | split; [exact L | repeat split; assumption]].
     + apply (inv_nodup s I).
     + intros t' c' tw wr rd Hh. destruct (inv_hold s I _ _ _ _ _ Hh) as (A & B & C & D).
-      upd_cases c' c; [subst|]; repeat split; auto. simpl. rewrite <- Hsc. apply pipe_srv_read; auto.
+      upd_goal c' c; repeat split; auto. simpl. rewrite <- Hsc. apply pipe_srv_read; auto.
     + apply (inv_excl s I).
     + apply (inv_done s I).
   - (* LSrvReply *)
@@ -281,23 +282,109 @@ Proof.
     destruct (srv (conns s c)) as [r|] eqn:Hv; [|discriminate].
     inversion H; subst; clear H. unfold set_conn. constructor; simpl.
     + intros c' Hc'. destruct (inv_idle s I c' Hc') as [L (K1 & K2 & K3 & K4)].
-      upd_cases c' c; [subst; rewrite Hv in K3; discriminate | split; [exact L | repeat split; assumption]].
+      upd_goal c' c; [rewrite Hv in K3; discriminate | split; [exact L | repeat split; assumption]].
     + apply (inv_nodup s I).
     + intros t' c' tw wr rd Hh. destruct (inv_hold s I _ _ _ _ _ Hh) as (A & B & C & D).
-      upd_cases c' c; [subst|]; repeat split; auto. simpl. rewrite <- Hsc. apply pipe_srv_reply; auto.
+      upd_goal c' c; repeat split; auto. simpl. rewrite <- Hsc. apply pipe_srv_reply; auto.
     + apply (inv_excl s I).
     + apply (inv_done s I).
   - (* LSrvClose *)
     destruct (c <? nconn s) eqn:Hlt; [|discriminate].
     inversion H; subst; clear H. unfold set_conn. constructor; simpl.
     + intros c' Hc'. destruct (inv_idle s I c' Hc') as [L (K1 & K2 & K3 & K4)].
-      upd_cases c' c; [subst|]; (split; [exact L | repeat split; assumption]).
+      upd_goal c' c; (split; [exact L | repeat split; assumption]).
     + apply (inv_nodup s I).
     + intros t' c' tw wr rd Hh. destruct (inv_hold s I _ _ _ _ _ Hh) as (A & B & C & D).
-      upd_cases c' c; [subst|]; repeat split; auto. apply pipe_srv_close. exact D.
+      upd_goal c' c; repeat split; auto. apply pipe_srv_close. exact D.
     + apply (inv_excl s I).
     + apply (inv_done s I).
 Qed.
 
 Lemma inv_reach mi s : reach mi s -> inv s.
 Proof. apply (reach_invariant mi inv inv_init (step_inv mi)). Qed.
+
+(* ------------------------------------------------------------------ the statements *)
+Lemma own_reply mi s t reqs res : reach mi s -> In (t, reqs, Some res) (completed s) -> res = reqs.
+Proof. intros H. apply (inv_done s (inv_reach mi s H)). Qed.
+
+Lemma exclusive mi s t1 t2 c : reach mi s -> holds s t1 c -> holds s t2 c -> t1 = t2.
+Proof. intros H. apply (inv_excl s (inv_reach mi s H)). Qed.
+
+Lemma held_not_idle mi s t c : reach mi s -> holds s t c -> ~ In c (idle s).
+Proof. intros H (tw & wr & rd & Hh). apply (inv_hold s (inv_reach mi s H) _ _ _ _ _ Hh). Qed.
+
+Lemma idle_clean mi s c : reach mi s -> In c (idle s) -> clean (conns s c) /\ NoDup (idle s).
+Proof. intros H Hc. split; [apply (inv_idle s (inv_reach mi s H) c Hc) | apply (inv_nodup s (inv_reach mi s H))]. Qed.
+
+Lemma pool_bound_step mi s l s' : length (idle s) <= mi -> step mi s l = Some s' -> length (idle s') <= mi.
+Proof.
+  intros Hb H. destruct l; simpl in H;
+    repeat match type of H with
+           | context [match ?x with _ => _ end] => destruct x eqn:?; try discriminate
+           end; inversion H; subst; clear H; unfold set_conn; simpl in *; try lia.
+  all: try (match goal with E : idle _ = _ |- _ => rewrite E in Hb; simpl in Hb; lia end).
+  all: try (match goal with E : (_ <? _) = true |- _ => apply Nat.ltb_lt in E; lia end).
+Qed.
+
+Lemma pool_bound mi s : reach mi s -> length (idle s) <= mi.
+Proof.
+  apply (reach_invariant mi (fun s => length (idle s) <= mi)); [simpl; lia|].
+  intros; eapply pool_bound_step; eauto.
+Qed.
+
+(* a closed connection stays closed, whatever happens *)
+Lemma cclosed_step mi s l s' c : step mi s l = Some s' -> c < nconn s -> cclosed (conns s c) = true ->
+  c < nconn s' /\ cclosed (conns s' c) = true.
+Proof.
+  intros H Hlt Hc. destruct l; simpl in H;
+    repeat match type of H with
+           | context [match ?x with _ => _ end] => destruct x eqn:?; try discriminate
+           end; inversion H; subst; clear H; unfold set_conn; simpl.
+  all: try (split; [lia|]).
+  all: try assumption.
+  all: try (unfold upd; match goal with |- context [Nat.eqb ?x ?k] => destruct (Nat.eqb_spec x k) end; subst; simpl; try assumption; try reflexivity; try lia).
+Qed.
+
+Lemma run_from_reach mi s ls s' : reach mi s -> run mi s ls = Some s' -> reach mi s'.
+Proof.
+  intros [l0 H0] Hr. exists (l0 ++ ls). revert H0. generalize init. induction l0 as [|a l0 IH]; simpl; intros s0 H0.
+  - inversion H0; subst. exact Hr.
+  - destruct (step mi s0 a); [|discriminate]. apply IH. exact H0.
+Qed.
+
+(* once a connection was discarded (a deadline expired on it, a decode failed, ...) it is never pooled again *)
+Lemma discarded_stays_out mi s c : reach mi s -> c < nconn s -> cclosed (conns s c) = true ->
+  forall ls s', run mi s ls = Some s' -> ~ In c (idle s').
+Proof.
+  intros Hr Hlt Hc ls. revert s Hr Hlt Hc. induction ls as [|l ls IH]; simpl; intros s Hr Hlt Hc s' Hrun.
+  - inversion Hrun; subst. intros Hin. destruct (idle_clean mi s' c Hr Hin) as [(_ & _ & _ & K) _]. congruence.
+  - destruct (step mi s l) as [s1|] eqn:E; [|discriminate].
+    destruct (cclosed_step mi s l s1 c E Hlt Hc) as [L1 C1].
+    apply (IH s1); auto. apply (run_from_reach mi s [l] s1 Hr). simpl. rewrite E. reflexivity.
+Qed.
+
+(* every error path closes the connection it used *)
+Lemma fail_closes mi s t s' c : holds s t c -> step mi s (LFail t) = Some s' -> cclosed (conns s' c) = true.
+Proof.
+  intros (tw & wr & rd & Hh) H. simpl in H. rewrite Hh in H. inversion H; subst; clear H. simpl. rewrite upd_eq. reflexivity.
+Qed.
+
+(* non-vacuity: pool of one connection, caller 0 times out while request 5 is still inside the handler; the
+   late response is written to the discarded connection; caller 1 dials afresh and gets 7; caller 0 then
+   reuses caller 1's pooled connection for a batch and gets [8; 9] in order. *)
+Definition example_run : list label :=
+  [ LGet 0 [5] false; LWrite 0; LSrvRead 0; LFail 0; LSrvReply 0;
+    LGet 1 [7] false; LWrite 1; LSrvRead 1; LSrvReply 1; LRead 1; LPut 1;
+    LGet 0 [8; 9] true; LWrite 0; LWrite 0; LSrvRead 1; LSrvReply 1; LSrvRead 1; LRead 0; LSrvReply 1; LRead 0; LPut 0 ].
+
+Example example_run_ok :
+  exists s, run 1 init example_run = Some s /\
+            completed s = [(0, [5], None); (1, [7], Some [7]); (0, [8; 9], Some [8; 9])] /\
+            idle s = [1] /\ cclosed (conns s 0) = true /\ s2c (conns s 0) = [5].
+Proof. eexists. split; [vm_compute; reflexivity|]. vm_compute. repeat split. Qed.
+
+(* had the timed-out connection been pooled instead of discarded, the next caller on it would read 5 — the
+   model refuses that execution: a Put is not enabled before every response has been read *)
+Example dirty_put_not_enabled :
+  run 1 init [ LGet 0 [5] false; LWrite 0; LSrvRead 0; LPut 0 ] = None.
+Proof. vm_compute. reflexivity. Qed.
